@@ -146,11 +146,14 @@ class Gen:
         ss = rs = 0
         if r.random() < 0.1:
             ss, rs = r.randrange(1, 40), r.randrange(1, 40)
+        elif r.random() < self.w.get('_big', 0.0):
+            # ten-digit sequence numbers (the MsgSeqNum FIELD is an int: numbers above 2147483647 cannot be represented and are left out)
+            ss, rs = r.randrange(10 ** 9, 2 * 10 ** 9), r.randrange(10 ** 9, 2 * 10 ** 9)
         self.clock = 0
-        self.always = r.random() < self.w.get('_always', 0.0)
+        self.always = r.random() < self.w.get('_always', 0.0) or getattr(self, 'force', None) == 'A'
         # X: segment with the extended operations (application retransmissions alone and at the tail of a batch, failing socket writes);
         # like A it is outside the Lean model and judged by the property oracle only
-        self.ext = (not self.always) and r.random() < self.w.get('_ext', 0.0)
+        self.ext = (not self.always) and (r.random() < self.w.get('_ext', 0.0) or getattr(self, 'force', None) == 'X')
         self.emit('new %s %d %d %d%s' % (pk, enf, ss, rs, ' A' if self.always else ' X' if self.ext else ''), kind='new')
         self.ns = (ss or 1) + 1
         self.nr = rs or 1
@@ -504,6 +507,12 @@ def generate(pid, seed, nseg, nops, w, persist=('mem', 'file', 'none')):
     rng = vlib.rng_for(pid, seed)
     meta = {}
     g = Gen(rng, w, persist, meta)
+    # every run has at least one segment of each special flavour the weights ask for (A: _always_seqnum_assign, X: extended operations)
+    for flavour, key in (('A', '_always'), ('X', '_ext')):
+        if w.get(key, 0.0) > 0:
+            g.force = flavour
+            g.segment(nops)
+    g.force = None
     for _ in range(nseg):
         g.segment(rng.randrange(max(3, nops // 3), nops + 1))
     return g.lines, meta
